@@ -35,6 +35,11 @@ CHECKS = {
         "Exploration: operator grammars with every/generated subsets of productions and terminals marked dynamic; filters accept-all, reject-all-reductions-of-one-production and precedence-encoding are wrapped in a recorder; for every expression with <= 3 operators (+ generated 4-operator ones), LR and GLR: first call is the all-None initialisation, later calls only for marked terminals/productions with matching sub-results; accept-all equals the parse without filter; reject-P gives exactly the trees not using P (SyntaxError iff none); the precedence filter gives the single precedence-climbing tree.",
         "Trusted: precedence-climbing reference; LR grammars are fully marked or fully statically prioritised so that Parser() constructs.",
         "DESIGN.md section 6/C18"),
+    "C07": (
+        "differential PBT: tokens chosen by LR (disambiguation on) and pursued by GLR (off) vs an executable statement of the documented lexical-disambiguation rules, over generated terminal sets and expected-set groupings",
+        "Exploration: generated sets of 2-6 terminals (string, regex, custom recognizers with both signatures; priorities; prefer; nofinish; optional KEYWORD; ignore_case) grouped into 1-3 selector states with different expected sets, plus every pair of pool terminals; for 27 probe texts per state LR must pick exactly the token the documented order picks (priority, string/keyword over others, longest, prefer), raise DisambiguationError with exactly the remaining tokens, or SyntaxError at the token position; GLR must pursue exactly the matching expected terminals of the highest matching priority.",
+        "Trusted: the rule model in pv/props/c07.py (docs/disambiguation.md). Explicit nofinish on a string terminal is modelled as losing the 'most specific' privilege; positions where such a string competes with another string are skipped and counted; explicit finish marks on non-string terminals are not generated.",
+        "DESIGN.md section 6/C07"),
     "C08": (
         "PBT evaluating the stated per-node position/losslessness predicates on every node of every LR tree and GLR forest tree under generated layout (ws and LAYOUT-rule comments), plus instrumented actions recording the positions callbacks receive",
         "Exploration: for every sentence (all token strings up to 4-5 tokens, rendered with generated layout before, between and after tokens; single-character, multi-character and overlapping lexicons; ws-based and comment LAYOUT grammars) every node of the LR build_tree result and of up to 40-200 forest trees + get_first_tree is checked: integer in-bounds positions, terminal value = input slice, ordered non-overlapping siblings, children inside parents, layout_content+value concatenation reproduces the input, and the positions seen by actions (on the fly and via call_actions) equal the tree's.",
@@ -60,6 +65,11 @@ CHECKS = {
         "Exploration: every generated productive grammar (exhaustive tiny space, random small/medium, pinned classics) x {LALR,SLR} x {main,LAYOUT start} is built under a reference-derived step budget and the resulting automaton is simulated against an independently constructed canonical LR(1) automaton (no action/goto missing), LALR reductions are checked to lie inside reference LALR(1) lookaheads, and reported conflicts must be reference conflicts. Holds on everything explored; no absence claim beyond the explored sizes.",
         "Trusted: pv/ref_lr.py (textbook LR(1)/LALR(1)), Hypothesis, the step-budget calibration (budget = 1500 x reference work + 4e5 lines, observed max < 0.1 of budget). Grammars up to 6 non-terminals / 5 terminals; reference capped at 400 LR(1) states.",
         "DESIGN.md section 6/C05"),
+    "C19": (
+        "differential PBT: inline vs declared string terminals, and both vs a reference scanner (literal matching + whole-word rule for KEYWORD-matched strings + documented disambiguation) over generated texts with punctuation, quotes and escapes",
+        "Exploration: generated and enumerated texts (letters, digits, '_', . | + * ( ) [ ] backslash, quotes, new line, tab) as t1,t2,t3 in 'S: t1 t2 | t3 ID' with optional KEYWORD regex (5 choices), 3 identifier regexes, both quote styles, ignore_case; the inline grammar must construct iff the declared one does and both LR parsers must agree on every probe input (concatenations of the texts/identifiers/spaces, glued and case-changed variants); the declared parser must agree with the reference scanner on result values, rejection position and ambiguity.",
+        "Trusted: reference scanner in pv/props/c19.py. Known findings by text predicate: D11a (dot), D11b (backslash followed by n/t/quote/backslash: double unescape), D11c (text equals a rule name), D11d (EMPTY/STOP); each relaxes only the clause it concerns and cases are still generated and counted.",
+        "DESIGN.md section 6/C19"),
 }
 
 NOT_YET = {}
